@@ -12,25 +12,26 @@ LEVEL = "exploration"
 TECHNIQUE = ("runtime model server applying the decoded Subscribe/StopSubscribe wire log (with TTL expiry in virtual time), compared at "
              "idle points with the requested set of a live ServiceSubscriber; requests placed around every refresh tick")
 LEVEL_TEXT = ("Held on every generated script of the run: subscribe / stop-subscribe / start / stop requests for 4 eventgroups (IPv4 and "
-              "IPv6 local endpoints, UDP and TCP) and 2 servers, at new instants, in the same loop iteration as the previous request "
+              "IPv6 local endpoints, UDP and TCP) and 4 servers, at new instants, in the same loop iteration as the previous request "
               "(all orders arise) and at d-eps / d ahead of the timer / d behind the timer / d+eps of the next refresh tick, for finite "
               "TTL with refresh and infinite TTL without. A model server per destination applies what is on the wire, in wire order; at "
               "every idle point its holdings must equal the requested set while the subscriber runs and be empty when it does not; "
               "entry contents, destinations and refresh gaps are checked on every datagram. Scripts are sampled")
 LEVEL_NOTE = "trusts the model server in this module and pv/refwire.py; no duplicate subscribe of one (eventgroup, server) pair, as the quantifier states"
 RULE = (
-    "scripts of 3-30 requests over {subscribe, stop-subscribe} x 4 eventgroups x 2 servers and {start, stop}; placement classes new "
-    "instant / same iteration / around the next refresh tick; two timing configurations (TTL 5 refresh 3 s, TTL infinite no refresh) "
+    "scripts of 3-30 requests over {subscribe, stop-subscribe} x 4 eventgroups x 4 servers and {start, stop}; placement classes new "
+    "instant / same iteration / 1-3 loop iterations later in the same instant / around the next refresh tick (also 1-3 iterations "
+    "behind it); two timing configurations (TTL 5 refresh 3 s, TTL infinite no refresh) "
     "plus TTL 2 refresh 1. distinct = distinct (config, (request, placement) sequence); non-trivial = at least one Subscribe was "
     "sent and one request changed the requested set while running"
 )
 ASSUMPTIONS = ["a server 'applies' entries in datagram order, then entry order; Subscribe(ttl) holds until now+ttl, StopSubscribe removes"]
 FLOORS = {"quick": {"scripts": 8000, "idle_comparisons": 150000, "subscribe_entries_checked": 100000, "stop_entries_checked": 15000,
                     "refresh_gaps_checked": 30000, "requests_same_iteration": 20000, "requests_at_tick_before": 2000,
-                    "requests_at_tick_after": 2000, "requests_tick_adjacent": 4000, "stop_start_cycles": 3000}}
+                    "requests_at_tick_after": 2000, "requests_tick_adjacent": 4000, "stop_start_cycles": 3000, "requests_hopped_iterations": 8000}}
 
 FOREVER = 0xFFFFFF
-SERVERS = [("10.0.14.2", 30490), ("2001:db8::e2", 30490, 0, 0)]
+SERVERS = [("10.0.14.2", 30490), ("2001:db8::e2", 30490, 0, 0), ("10.0.14.3", 30490), ("2001:db8::e3", 30490, 0, 0)]
 # eventgroups: (sid, iid, maj, egid, sockname, proto)
 EGS = [(0x9001, 1, 1, 1, ("10.0.14.1", 5001), 17), (0x9001, 1, 1, 2, ("10.0.14.1", 5002), 6),
        (0x9002, 3, 2, 1, ("2001:db8::e1", 5003, 0, 0), 17), (0x9003, 0x10, 1, 0x20, ("2001:db8::e1", 5004, 0, 0), 6)]
@@ -52,8 +53,15 @@ def build(rng):
     pat = []
     changed_running = False
     cycles = 0
+    hopped = False
     for _ in range(rng.randrange(3, 31)):
-        pl = rng.choice(("new", "new", "same", "same", "d-eps", "d:before", "d:after", "d+eps"))
+        pl = rng.choice(("new", "new", "same", "same", "d-eps", "d:before", "d:after", "d+eps", "d:after+1", "d:after+2", "d:after+3", "same+1"))
+        if hopped:
+            pl = "new"  # nothing else in the instant of a hopped request: keeps the script order equal to the execution order
+        hops = 0
+        if "+" in pl and pl != "d+eps":
+            pl, h = pl.split("+")
+            hops = int(h)
         rank = BEFORE
         tick = None
         if running and cfg["refresh"]:
@@ -92,8 +100,9 @@ def build(rng):
                 requested.add(pair)
             if running:
                 changed_running = True
-        script.append((t, rank, a))
-        pat.append((a["kind"], a.get("eg"), a.get("srv"), pl))
+        script.append((t, rank, a, hops))
+        hopped = hops > 0
+        pat.append((a["kind"], a.get("eg"), a.get("srv"), pl, hops))
         now = t
     return dict(cfg=cfg, script=script, pat=tuple(pat), horizon=now + (7.0 if cfg["refresh"] else 2.0), changed=changed_running,
                 cycles=cycles)
@@ -193,7 +202,7 @@ class Run:
         T = self.h.loop.time()
         script = self.sc["script"]
         while self.pos < len(script) and script[self.pos][0] <= T + RES:
-            t, _r, a = script[self.pos]
+            t, _r, a, _h = script[self.pos]
             self.pos += 1
             if a["kind"] == "start":
                 self.running = True
@@ -243,8 +252,8 @@ class Run:
     def execute(self):
         self.model_ever_requested_for = set()
         self.h.loop.idle_hooks.append(self.on_idle)
-        for t, rank, a in self.sc["script"]:
-            self.h.at(t, self.do, a, rank=rank)
+        for t, rank, a, hops in self.sc["script"]:
+            self.h.at(t, self.do, a, rank=rank, hops=hops)
         self.h.run(self.sc["horizon"])
         problems = self.h.problems()
         self.h.close()
@@ -258,7 +267,9 @@ def judge(ctx, sc, seed, replay):
     ctx.count("stop_start_cycles", sc["cycles"])
     for k, v in run.stats.items():
         ctx.count(k, v)
-    for kind, _e, _s, pl in sc["pat"]:
+    for kind, _e, _s, pl, hops in sc["pat"]:
+        if hops:
+            ctx.count("requests_hopped_iterations")
         if pl == "same":
             ctx.count("requests_same_iteration")
         elif pl == "d:before":
@@ -267,7 +278,7 @@ def judge(ctx, sc, seed, replay):
             ctx.count("requests_at_tick_after")
         elif pl in ("d-eps", "d+eps"):
             ctx.count("requests_tick_adjacent")
-    brief = dict(config=sc["cfg"], script=[(t, r, a) for t, r, a in sc["script"]][:16])
+    brief = dict(config=sc["cfg"], script=[(t, r, a, h) for t, r, a, h in sc["script"]][:16])
     for mech, detail in run.violations[:2]:
         detail.update(brief)
         ctx.violation(mech, detail, replay)
@@ -289,7 +300,7 @@ def run(spec, ctx):
         sc = build(rng)
         nt = judge(ctx, sc, "s", dict(base=base, index=i))
         ctx.case((sc["cfg"]["ttl"], sc["pat"]), nt,
-                 sample=dict(config=sc["cfg"], requests=[dict(t=t, rank=r, **a) for t, r, a in sc["script"][:10]]) if i < 2 else None)
+                 sample=dict(config=sc["cfg"], requests=[dict(t=t, rank=r, hops=h, **a) for t, r, a, h in sc["script"][:10]]) if i < 2 else None)
 
 
 def replay(doc, ctx):
